@@ -45,7 +45,7 @@ def bootstrap(spec):
     if spec.get("suite"):
         os.environ.pop("TZ", None)        # tests/tz/test_local_timezone.py inspects the environment itself
     else:
-        os.environ["TZ"] = "UTC"
+        os.environ["TZ"] = spec.get("tz") or "UTC"
     os.environ["PENDULUM_EXTENSIONS"] = "0" if spec["config"] == "ext0" else "1"
     time.tzset()
     src = os.path.join(common.REPO, "src")
